@@ -82,5 +82,10 @@ TAIL0 = 910675     # first day of the last 606 days of the range (4094-05-05)
 
 
 def tail(tag, n):
-    """qualify a class tag with the region of the day axis the case lies in"""
-    return tag + "@tail" if n is not None and n >= TAIL0 else tag
+    """qualify a class tag with the region of the day axis the case lies in
+    (only for cases that go through a day number: ldn, mdn, jdn, epoch)"""
+    if n is None or n < TAIL0:
+        return tag
+    if any(x in tag for x in ("ldn", "mdn", "jdn", "%s")):
+        return tag + "@tail"
+    return tag
